@@ -696,6 +696,7 @@ fn engine_step(cx: &Cx, job: &EJob, h: &[usize]) -> Option<(BTreeSet<(u8, String
         let mut table: BTreeMap<u8, (usize, bool)> = BTreeMap::new();
         let mut removals: BTreeSet<&'static str> = BTreeSet::new();
         let mut failed_inserts = 0usize; // admissions that failed after the IP gate (bucket full / region)
+        let mut refused_refreshes = 0u8; // a refused refresh leaves the table as it was; kept in the canon so that such histories are extended
         let refstate = |table: &BTreeMap<u8, (usize, bool)>| {
             let mut r = RefState::default();
             for (_, (i, counted)) in table.iter() {
@@ -724,9 +725,25 @@ fn engine_step(cx: &Cx, job: &EJob, h: &[usize]) -> Option<(BTreeSet<(u8, String
                 }
                 EOp::Add(i) => {
                     let n = &job.nodes[*i];
-                    // re-adding an id whose slots are already counted is outside the statement (refresh semantics) -> not explored
-                    if matches!(table.get(&n.x), Some((_, true))) {
-                        return None;
+                    // re-adding an admitted id: the identical instance is not explored; the same id announcing ANOTHER
+                    // address is a refresh: its own result is not judged (admitting it with or without counting its old
+                    // slots are both within the statement), but the reference follows what happened, so every later
+                    // admission is judged against the entries that are really in the table
+                    if let Some((j, true)) = table.get(&n.x).copied() {
+                        if j == *i {
+                            return None;
+                        }
+                        let ok = e.add_node(node_info(n, job.fmt)).await.is_ok();
+                        if last {
+                            cx.distinct.eval();
+                            cx.distinct.outcome(&("engine-refresh", job.fmt.name(), ok));
+                        }
+                        if ok {
+                            table.insert(n.x, (*i, engine_kind(n).is_some()));
+                        } else {
+                            refused_refreshes += 1;
+                        }
+                        continue;
                     }
                     let r = refstate(&table);
                     let kind = engine_kind(n);
@@ -821,6 +838,10 @@ fn engine_step(cx: &Cx, job: &EJob, h: &[usize]) -> Option<(BTreeSet<(u8, String
             cx.run.info("engine-table-differs-from-reference (C02 territory; state not judged further)");
         }
         let obs = hash64(&listing);
+        let mut want = want;
+        if refused_refreshes > 0 {
+            want.insert((0, format!("~{}-refused-refresh", refused_refreshes.min(2))));
+        }
         Some((want, obs))
     })
 }
@@ -1085,6 +1106,7 @@ fn main() {
         ENode { x: 0x04, ip: Some(IpAddr::V6(v6(0, PLAIN))), port: 9000 },
         ENode { x: 0x02, ip: Some(IpAddr::V6(v6(1, PLAIN))), port: 9000 }, // same /64 (cap 1)
         ENode { x: 0x01, ip: None, port: 0 },                              // garbage address string
+        ENode { x: 0x80, ip: Some(IpAddr::V4(Ipv4Addr::new(10, 1, 1, 2))), port: 9002 }, // the FIRST id re-announcing from the third node's IP
     ];
     let mut ejobs: Vec<EJob> = Vec::new();
     for fmt in [Fmt::Sock, Fmt::IpOnly, Fmt::Rendered] {
@@ -1092,7 +1114,7 @@ fn main() {
         for i in 0..enodes.len() {
             ops.push(EOp::Add(i));
         }
-        let removable: Vec<usize> = (0..enodes.len()).collect();
+        let removable: Vec<usize> = (0..enodes.len() - 1).collect(); // the re-announcing instance shares its id with node 0
         for &i in &removable {
             ops.push(EOp::Evict(i));
         }
@@ -1305,7 +1327,7 @@ fn main() {
             "caps are evaluated at admission time for the candidate (halved, min 1, for hosting/VPN candidates at every level including the ASN level); shrinking the network size later is not a violation".into(),
             "IPv4 caps (weakest reading, DESIGN): per-IP = min(max_per_ip_cap, max(1, floor(size*fraction))), /24 = min(configured, 3*per-IP), /16 = min(configured, 10*per-IP); the field max_nodes_per_ipv4_32 is not consulted by the library and not by the oracle".into(),
             "IPv4 ASN/hosting attributes are set on the public IPv4Analysis fields (analyze_ipv4 never fills them)".into(),
-            "only admitted instances are removed; re-adding an id whose slots are already counted is not explored in (ii); garbage address strings carry no expectation beyond no-panic".into(),
+            "only admitted instances are removed; an admitted id re-announcing from another address (refresh) is explored: its own result is not judged, the reference follows it and later admissions are judged against the entries really in the table; garbage address strings carry no expectation beyond no-panic".into(),
             "(ii) the engine's enforcer is not observable: admissibility is observed through add_node results only; C13.release/C13.atomic attribution of a later refusal is derived from the operations present in the witness history".into(),
             "(ii) the region cap (50 per region, never decremented either) is not reachable in these histories and not judged".into(),
             "below the 50k LRU bound only; part (iv): five dial sequences into a real node over the in-memory socket, admitted sequence compared with a fresh enforcer".into(),
